@@ -95,6 +95,50 @@ leaf!(
 leaf!(BX, Box<u32>, |v| Box::new(v), |i| Some(**i), |_| 4);
 leaf!(TUP, (u32, String, u8), |v| (v, strv(v), v as u8), |i| (i.1.parse::<u32>().ok() == Some(i.0)).then_some(i.0), |_| 4 + 7 + 1);
 
+
+// ---- the library's own container / std implementations (measured, cloned, cast; a smaller
+// history depth than the 20 types above) ---------------------------------------------------
+use std::collections::{BTreeMap, BTreeSet, HashMap, HashSet, LinkedList, VecDeque};
+/// a deque whose ring buffer is wrapped (filled to capacity, two popped at the front, two pushed at the back)
+fn wrapped_deque(v: u32) -> VecDeque<u16> {
+    let mut d: VecDeque<u16> = VecDeque::with_capacity(4);
+    let cap = d.capacity();
+    for _ in 0..cap {
+        d.push_back(0);
+    }
+    for _ in 0..2 {
+        d.pop_front();
+    }
+    for x in d.iter_mut() {
+        *x = v as u16;
+    }
+    for _ in 0..2 {
+        d.push_back(v as u16);
+    }
+    assert!(!d.as_slices().1.is_empty(), "harness: the deque is not wrapped");
+    d
+}
+fn deque_len() -> usize {
+    VecDeque::<u16>::with_capacity(4).capacity() * 2
+}
+fn all_eq<'a, I: Iterator<Item = &'a u16>>(mut i: I) -> Option<u32> {
+    let f = *i.next()?;
+    i.all(|x| *x == f).then_some(u32::from(f))
+}
+leaf!(DQ, VecDeque<u16>, wrapped_deque, |i| all_eq(i.iter()), |_| deque_len());
+leaf!(LL, LinkedList<u16>, |v| (0..3).map(|_| v as u16).collect(), |i| all_eq(i.iter()), |_| 6);
+leaf!(BM, BTreeMap<u8, u32>, |v| [(1u8, v), (2u8, v)].into_iter().collect(), |i| i.get(&1).copied().filter(|x| i.get(&2) == Some(x)), |_| 10);
+leaf!(HM, HashMap<u8, u32>, |v| [(1u8, v), (2u8, v), (3u8, v)].into_iter().collect(), |i| i.get(&1).copied().filter(|x| i.values().all(|y| y == x)), |_| 15);
+leaf!(BS, BTreeSet<u32>, |v| [v, v + 1].into_iter().collect(), |i| i.iter().next().copied(), |_| 8);
+leaf!(HS, HashSet<u32>, |v| [v, v + 1, v + 2].into_iter().collect(), |i| i.iter().min().copied(), |_| 12);
+leaf!(IP, std::net::IpAddr, |v| if v % 2 == 0 { std::net::IpAddr::V4(std::net::Ipv4Addr::from(v)) } else { std::net::IpAddr::V6(std::net::Ipv6Addr::from(u128::from(v))) }, |i| Some(match i { std::net::IpAddr::V4(a) => u32::from(*a), std::net::IpAddr::V6(a) => u128::from(*a) as u32 }), |v| if v % 2 == 0 { 4 } else { 16 });
+leaf!(SA, std::net::SocketAddr, |v| if v % 2 == 0 { std::net::SocketAddr::from((std::net::Ipv4Addr::from(v), 80)) } else { std::net::SocketAddr::from((std::net::Ipv6Addr::from(u128::from(v)), 80)) }, |i| Some(match i.ip() { std::net::IpAddr::V4(a) => u32::from(a), std::net::IpAddr::V6(a) => u128::from(a) as u32 }), |v| if v % 2 == 0 { 6 } else { 18 });
+leaf!(DU, Duration, |v| Duration::from_nanos(u64::from(v)), |i| Some(i.as_nanos() as u32), |_| 16);
+leaf!(ST, SimTime, |v| SimTime::from_duration(Duration::from_nanos(u64::from(v))), |i| Some(i.as_nanos() as u32), |_| 16);
+leaf!(T5, (u8, u16, u32, u64, String), |v| (v as u8, v as u16, v, u64::from(v), strv(v)), |i| (u64::from(i.2) == i.3).then_some(i.2), |_| 1 + 2 + 4 + 8 + 7);
+leaf!(PR, (bool, char, u128, &'static str), |v| (v % 2 == 0, 'x', u128::from(v), "abc"), |i| Some(i.2 as u32), |_| 1 + 4 + 16 + 3);
+leaf!(VV, Vec<Vec<u16>>, |v| vec![vec![v as u16; 2], vec![], vec![v as u16]], |i| all_eq(i.iter().flatten()), |_| 6);
+
 /// derived tuple struct with three fields
 #[derive(Debug, Clone, MessageBody)]
 struct T3(A, D, V);
@@ -365,6 +409,20 @@ fn types() -> Vec<TyOps> {
         ops_clonable::<Gn<D>>("Gn<D> derived generic struct", |v| v),
         ops_clonable::<E4>("E4 derived enum, 4 variants", |v| if v % 4 == 0 { 0 } else { v }),
         ops_clonable::<ARR>("ARR([Option<u32>;3])", |v| v),
+        // index 20..: container / std implementations
+        ops_clonable::<DQ>("DQ(VecDeque<u16>, wrapped ring buffer)", |v| u32::from(v as u16)),
+        ops_clonable::<LL>("LL(LinkedList<u16>)", |v| u32::from(v as u16)),
+        ops_clonable::<BM>("BM(BTreeMap<u8,u32>)", |v| v),
+        ops_clonable::<HM>("HM(HashMap<u8,u32>)", |v| v),
+        ops_clonable::<BS>("BS(BTreeSet<u32>)", |v| v),
+        ops_clonable::<HS>("HS(HashSet<u32>)", |v| v),
+        ops_clonable::<IP>("IP(IpAddr)", |v| v),
+        ops_clonable::<SA>("SA(SocketAddr)", |v| v),
+        ops_clonable::<DU>("DU(Duration)", |v| v),
+        ops_clonable::<ST>("ST(SimTime)", |v| v),
+        ops_clonable::<T5>("T5(5-tuple)", |v| v),
+        ops_clonable::<PR>("PR((bool,char,u128,&str))", |v| v),
+        ops_clonable::<VV>("VV(Vec<Vec<u16>>)", |v| u32::from(v as u16)),
     ]
 }
 
@@ -593,13 +651,14 @@ impl Property for C16 {
     }
     fn rule(&self, tier: Tier) -> String {
         format!(
-            "every history of exactly {} operations over all 20 body types (82 ops) and of exactly {} operations over 9 core types (38 ops) (every shorter history is a checked prefix), on a stack of messages, ops = {{set_content(T), try_cast<T>, try_content<T>, can_cast<T> per type, try_clone, drop}}; \
+            "every history of exactly {} operations over 20 body types (82 ops), of exactly {} operations over 9 core types (38 ops) and of exactly {} operations over 13 container / std types (54 ops: a VecDeque with a wrapped ring buffer, LinkedList, BTreeMap, HashMap, BTreeSet, HashSet, IpAddr and SocketAddr in both variants, Duration, SimTime, a 5-tuple, (bool,char,u128,&str), Vec<Vec<u16>>) (every shorter history is a checked prefix), on a stack of messages, ops = {{set_content(T), try_cast<T>, try_content<T>, can_cast<T> per type, try_clone, drop}}; \
              types: u32 / i32 / f32 / [u8;4] / derived newtype (layout twins), String, Vec<u8>, Option<u32>, (), derived struct, derived enum (unit/tuple/named variants), nested derived struct, a non-Clone type, Result, Box, tuple, derived tuple struct with 3 fields, derived generic struct, derived enum with 4 variants, an array of options with unequal element lengths; \
              oracle: typed-value model (cast/borrow succeeds iff same type and yields the stored value; failure returns the message intact), live-object counter after every op and after dropping everything, \
              length() == 64 + independently computed byte length; plus one 2-module simulation per type checking arrival time == length*8/bitrate; \
              non-trivial = history containing a failed cast between layout twins, a cast after a clone, or a refused clone",
             tier.pick(4, 5),
-            tier.pick(5, 6)
+            tier.pick(5, 6),
+            tier.pick(3, 4)
         )
     }
     fn assumptions(&self) -> Vec<String> {
@@ -613,9 +672,10 @@ impl Property for C16 {
     }
     fn explore(&self, ctx: &mut Ctx) {
         let tys = types();
-        let everything: Vec<usize> = (0..tys.len()).collect();
-        // (type subset, depth): all types at the smaller depth, the core types one level deeper
-        let plans: Vec<(Vec<usize>, usize)> = vec![(everything, ctx.tier.pick(4, 5)), (CORE.to_vec(), ctx.tier.pick(5, 6))];
+        let everything: Vec<usize> = (0..20).collect();
+        let containers: Vec<usize> = (20..tys.len()).collect();
+        // (type subset, depth): the 20 main types at the smaller depth, the core types one level deeper, the container types at depth 3 / 4
+        let plans: Vec<(Vec<usize>, usize)> = vec![(everything, ctx.tier.pick(4, 5)), (CORE.to_vec(), ctx.tier.pick(5, 6)), (containers, ctx.tier.pick(3, 4))];
         if ctx.is_first_shard() {
             for t in 0..tys.len() {
                 ctx.out.evaluations += 1;
